@@ -130,8 +130,38 @@ class Builtins:
         if h is None:
             if f.recv is not None and isinstance(f.recv, VClass):
                 return self.class_attr_call(f.recv, name.split('.', 1)[1], args, kwargs, st, node)
+            if name in self.KNOWN_FUNCS or name in self.EXTERNAL_FUNCS:
+                return self.external_call(name, args, kwargs, st, node)
             raise OutOfSubset(f'builtin {name}', node)
         return h(args, kwargs, st, node)
+
+    EXTERNAL_FUNCS = {'open', 'json.load', 'json.dump', 'yaml.load', 'yaml.load_all', 'yaml.dump', 'contextlib.nullcontext'}
+
+    def external_term(self, name, args, kwargs, st):
+        th = self.th
+        names = sorted(kwargs)
+        a = [self.toVal(x, st) for x in args] + [self.toVal(kwargs[k], st) for k in names]
+        suffix = ('_kw_' + '_'.join(names)) if names else ''
+        fname = 'ext_' + name.replace('.', '_') + f'_{len(args)}' + suffix
+        return (th.fn(fname, *([th.Val] * len(a)), th.Val)(*a) if a else th.const('ext0:' + name)), fname, a
+
+    def external_call(self, name, args, kwargs, st, node):
+        """A dependency outside the repository (json, yaml, open): deterministic opaque result, may raise anything;
+        the call is recorded in the ghost call log so that a contract can say WHAT was called with WHICH arguments."""
+        th = self.th
+        t, fname, a = self.external_term(name, args, kwargs, st)
+        res = self.mkval(t, self.shape_of('ext:' + name), fresh=True)
+        log = st.env.get('$calls')
+        st.env['$calls'] = VTuple((log.items if isinstance(log, VTuple) else ()) + (VVal(t),))
+        if self.spec_mode or name == 'contextlib.nullcontext':
+            return [(res, st)]
+        cr = th.fn('raises_' + fname, *([th.Val] * len(a)), th.B)(*a) if a else z3.Bool('raises0_' + name)
+        s_ok = st.fork().add(z3.Not(cr))
+        s_ex = st.fork().add(cr)
+        return [(res, s_ok), (Raised(VExc(th.fresh('exc_cls', th.Exc), th.fresh('excv'), f'external:{name}')), s_ex)]
+
+    def bi_open(self, args, kwargs, st, node):
+        return self.external_call('open', args, kwargs, st, node)
 
     def bi_len(self, args, kwargs, st, node):
         th = self.th
@@ -1068,6 +1098,22 @@ class Builtins:
             if fi is None:
                 raise OutOfSubset('fnref: unknown function ' + str(args[0].py[1]))
             return [(VVal(self.toVal(VFunc(fi.node, {}, fi.module, fi.qualname), st)), st)]
+        if name in ('ext', 'did_call'):
+            # ext("json.load", *args, **kw): the value that external call returns; did_call(...): it was made on this path
+            t, fname, a = self.external_term(args[0].py[1], list(args[1:]), kwargs, st)
+            if name == 'ext':
+                return [(self.mkval(t, self.shape_of('ext:' + args[0].py[1])), st)]
+            log = st.env.get('$calls')
+            items = log.items if isinstance(log, VTuple) else ()
+            return [(VBool(z3.Or([it_.term == t for it_ in items]) if items else z3.BoolVal(False)), st)]
+        if name == 'exited':
+            # exited(cm): the context manager cm was exited (its __exit__ ran) on this path
+            log = st.env.get('$cm_exits')
+            items = log.items if isinstance(log, VTuple) else ()
+            cv = V(0)
+            return [(VBool(z3.Or([self.toVal(it_, st) == cv for it_ in items]) if items else z3.BoolVal(False)), st)]
+        if name == 'cm_enter':
+            return [(self.mkval(th.fn('cm_enter', th.Val, th.Val)(V(0)), None), st)]
         if name == 'called':
             # called(fn): how many times the user callable fn was invoked on this path (ghost call log)
             log = st.env.get('$calls')
@@ -1079,6 +1125,8 @@ class Builtins:
             return [(VInt(tot), st)]
         if name == 'id_of':
             return [(VVal(th.fn('id_of', th.Val, th.Val)(V(0)), kind='int'), st)]
+        if name == 'clsref_dotted':
+            return [(self.resolve_dotted(args[0].py[1], node), st)]
         if name == 'clsref':
             return [(VClass(args[0].py[1]), st)]
         if name in ('ret_make_converter', 'ret_into_data', 'ret', 'retc'):
